@@ -17,6 +17,11 @@
    it for hints and for the apoptosis text); 2 is an instance of 2b
    (Proofs.swarm_stateless_instance_proof) and run_case uses 2b.
 
+   Section 4: the budgets are public fields of mutable objects; a HISTORY of
+   attribute assignments and calls on one live ChaperoneLoop / RegenerativeSwarm
+   (heal_hist, swarm_obj_hist): the bound that applies to a call is the value
+   configured when the call is made.
+
    Raw outputs, errors, structures, responses, tool calls are integers (ids).
    A Python exception raised by an environment callable is an explicit
    constructor (GRaise, WStepRaise, factory_ok = false, PRaise x, CErr x): the
@@ -647,6 +652,92 @@ Definition raise_ok {St : Type} (with_tools : St -> Z -> list Z -> St * presp)
   forall x, f = TProviderRaised x -> raised_by_last with_tools complete x t.
 
 (* ====================================================================== *)
+(* 4. budgets are plain attributes of LIVE objects                          *)
+
+(* ChaperoneLoop and RegenerativeSwarm are mutable dataclasses: max_retries,
+   confidence_decay, max_regenerations, max_steps_per_worker and
+   entropy_threshold are public fields that can be ASSIGNED on an object that
+   is already in use (a controller tightening a budget when energy runs low,
+   relaxing it again later).  The life of such an object is a HISTORY of
+   operations: assign an attribute | make a call.  The bound that applies to a
+   call is the value the attribute holds WHEN THE CALL IS MADE (lowered or
+   raised since construction, since the previous call): heal() / supervise()
+   read the attributes, the object keeps no copy of them from construction time
+   or from an earlier call.  (The tool loop's max_iterations / auto_execute are
+   arguments of each call: run_calls above already gives every call its own.)
+   Assignments are made between calls, not while a call is in progress. *)
+
+Record hcfg := mkHCfg { hc_retries : Z; hc_decay : Q }.
+Inductive hop :=
+| HSetRetries (mr : Z)     (* loop.max_retries = mr *)
+| HSetDecay (d : Q)        (* loop.confidence_decay = d *)
+| HHeal.                   (* loop.heal(prompt) *)
+
+Definition hcfg_apply (c : hcfg) (op : hop) : hcfg :=
+  match op with
+  | HSetRetries mr => mkHCfg mr (hc_decay c)
+  | HSetDecay d => mkHCfg (hc_retries c) d
+  | HHeal => c
+  end.
+
+Definition is_heal (op : hop) : bool := match op with HHeal => true | _ => false end.
+Definition count_heals (ops : list hop) : nat := length (filter is_heal ops).
+
+(* one entry per heal() call: the configuration in effect, the generator's own
+   invocation count at entry, the result.  c: the object's attributes now *)
+Fixpoint heal_hist (gen : nat -> option ctx -> gen_out) (validate : Z -> vres)
+                   (c : hcfg) (k0 : nat) (ops : list hop)
+  : list (hcfg * nat * heal_result) :=
+  match ops with
+  | [] => []
+  | HHeal :: rest =>
+      let r := heal (fun k ec => gen (k0 + k)%nat ec) validate (hc_decay c) (hc_retries c) in
+      (c, k0, r) :: heal_hist gen validate c (k0 + length (h_calls r))%nat rest
+  | op :: rest => heal_hist gen validate (hcfg_apply c op) k0 rest
+  end.
+
+Record scfg := mkSCfg { sc_regen : Z; sc_steps : Z; sc_thr : Q }.
+Inductive sop :=
+| SSetRegen (z : Z)        (* swarm.max_regenerations = z *)
+| SSetSteps (z : Z)        (* swarm.max_steps_per_worker = z *)
+| SSetThr (q : Q)          (* swarm.entropy_threshold = q *)
+| SSupervise.              (* swarm.supervise(task) *)
+
+Definition scfg_apply (c : scfg) (op : sop) : scfg :=
+  match op with
+  | SSetRegen z => mkSCfg z (sc_steps c) (sc_thr c)
+  | SSetSteps z => mkSCfg (sc_regen c) z (sc_thr c)
+  | SSetThr q => mkSCfg (sc_regen c) (sc_steps c) q
+  | SSupervise => c
+  end.
+
+Definition is_sup (op : sop) : bool := match op with SSupervise => true | _ => false end.
+Definition count_sups (ops : list sop) : nat := length (filter is_sup ops).
+
+Section SwarmH.
+Variables Env Hint : Type.
+Variable spawn : Env -> nat -> Hint -> Env * bool.
+Variable wstepf : Env -> nat -> Env * wstep.
+Variable summarize : Env -> nat -> Hint.
+Variable memlen : Env -> nat -> nat.
+Variable h0 : Hint.
+
+(* one entry per supervise() call: the configuration in effect, the object
+   before, result, per-worker records, the object after *)
+Fixpoint swarm_obj_hist (c : scfg) (ops : list sop) (o : sobj) (e : Env)
+  : list (scfg * sobj * swarm_result * list (wrece Hint) * sobj) :=
+  match ops with
+  | [] => []
+  | SSupervise :: rest =>
+      let '(e', o', r, ws) :=
+        supervise_o spawn wstepf summarize memlen h0 (sc_thr c) (sc_regen c) (sc_steps c) o e in
+      (c, o, r, ws, o') :: swarm_obj_hist c rest o' e'
+  | op :: rest => swarm_obj_hist (scfg_apply c op) rest o e
+  end.
+End SwarmH.
+Arguments swarm_obj_hist {Env Hint}.
+
+(* ====================================================================== *)
 (* concrete behaviour families used by the generated correspondence cases  *)
 
 Inductive gitem := IOut (o : Z) | IRaise.
@@ -828,7 +919,14 @@ Inductive case :=
 (* n consecutive supervise() calls on ONE RegenerativeSwarm: _worker_counter is cumulative, so a later
    call names (and the factory sees) workers w0, w0+1, ... where w0 = factory invocations so far *)
 | CSwarmSeq (fac : list bool) (beh : list (list wstep)) (dflt : wstep) (thr : Q)
-            (max_regenerations max_steps : Z) (pol : mpol) (ncalls : nat).
+            (max_regenerations max_steps : Z) (pol : mpol) (ncalls : nat)
+(* a HISTORY of operations on ONE ChaperoneLoop constructed with (decay, max_retries): attribute
+   assignments (max_retries, confidence_decay) and heal() calls in any order *)
+| CHealHist (g : gbeh) (v : list (Z * vres)) (decay : Q) (max_retries : Z) (ops : list hop)
+(* a HISTORY of operations on ONE RegenerativeSwarm constructed with (thr, max_regenerations, max_steps):
+   attribute assignments (max_regenerations, max_steps_per_worker, entropy_threshold) and supervise() calls *)
+| CSwarmHist (fac : list bool) (beh : list (list wstep)) (dflt : wstep) (thr : Q)
+             (max_regenerations max_steps : Z) (pol : mpol) (ops : list sop).
 
 Definition b2z (b : bool) : Z := if b then 1 else 0.
 Definition n2z (n : nat) : Z := Z.of_nat n.
@@ -948,6 +1046,20 @@ Definition swarm_seq_e (fac : list bool) (beh : list (list wstep)) (d : wstep) (
     (swarm_obj_runs (interp_spawn fac p) (interp_wstep beh d p) interp_summarize interp_memlen
                     (O, false) thr mg ms n sobj0 (O, [])).
 
+(* histories with attribute assignments: the observations of every call, one after the other (an
+   assignment itself shows nothing; what it changes is what the later calls do) *)
+Definition heal_hist_obs (g : gbeh) (v : list (Z * vres)) (decay : Q) (mr : Z) (ops : list hop)
+  : list (list Z) :=
+  flat_map (fun x : hcfg * nat * heal_result => obs_heal (snd x))
+           (heal_hist (interp_gen g) (interp_val v) (mkHCfg mr decay) 0 ops).
+
+Definition swarm_hist_obs (fac : list bool) (beh : list (list wstep)) (d : wstep) (thr : Q) (mg ms : Z)
+                          (p : mpol) (ops : list sop) : list (list Z) :=
+  flat_map (fun x : scfg * sobj * swarm_result * list (wrece chint) * sobj =>
+              let '(_, o, r, ws, o') := x in obs_swarm_o (o, r, ws, o'))
+    (swarm_obj_hist (interp_spawn fac p) (interp_wstep beh d p) interp_summarize interp_memlen
+                    (O, false) (mkSCfg mg ms thr) ops sobj0 (O, [])).
+
 Definition run_case (c : case) : list (list Z) :=
   match c with
   | CHeal g v decay mr => obs_heal (heal (interp_gen g) (interp_val v) decay mr)
@@ -959,4 +1071,6 @@ Definition run_case (c : case) : list (list Z) :=
                   nest_fuel (0%nat, 0%nat) [] 0 calls)
   | CHealSeq g v decay mr n => heal_seq g v decay mr n
   | CSwarmSeq fac beh d thr mg ms p n => swarm_seq_e fac beh d thr mg ms p n
+  | CHealHist g v decay mr ops => heal_hist_obs g v decay mr ops
+  | CSwarmHist fac beh d thr mg ms p ops => swarm_hist_obs fac beh d thr mg ms p ops
   end.
